@@ -407,3 +407,30 @@ def r16_9_calculators_answer_one_year_beyond(ctx: Ctx) -> RuleResult:
                         if k is not None:
                             work.append(k)
     return rr
+
+
+# ------------------------------------------------------------------------------------------- R16.10 wrappers delegate to their namesake
+
+
+@rule("C16")
+def r16_10_weekday_navigation_delegates_to_namesake(ctx: Ctx) -> RuleResult:
+    """LocalDateTime.next / previous and the DateAdjusters of the same names only wrap the LocalDate operation of the SAME name (the
+    or-same adjusters wrap a test plus that operation).  A wrapper built from the opposite direction plus a week's correction
+    (`next(...).plus_weeks(-1)`) agrees except when the value already falls on the requested weekday - and overflows at the end
+    of the calendar.  Every such wrapper must call its namesake on the date and nothing else that moves the date."""
+    rr = RuleResult("R16.10", "next / previous on LocalDateTime and in DateAdjusters delegate to the LocalDate operation of the same name, without further date arithmetic", min_instances=4)
+    M = ctx.M
+    for f in sorted(set(M.func_of_node.values()), key=lambda x: x.qual):
+        if f.mod.rel not in ("pyoda_time/_local_date_time.py", "pyoda_time/_date_adjusters.py"):
+            continue
+        base = f.name.replace("_or_same", "")
+        if base not in ("next", "previous") or isinstance(f.node, ast.Lambda):
+            continue
+        rr.inst()
+        calls = [n.func.attr for n in ast.walk(f.node) if isinstance(n, ast.Call) and isinstance(n.func, ast.Attribute)]
+        moving = [a for a in calls if a in ("next", "previous") or a.startswith(("plus_", "minus_", "with_"))]
+        if moving and all(a == base for a in moving):
+            rr.ok({"wrapper": f.qual, "delegates to": base})
+        else:
+            rr.fail(f.qual, f"{f.name} is built from {moving or calls}: it must delegate to LocalDate.{base} only (a detour through the opposite direction differs when the value already falls on the requested weekday)", ctx.loc(f))
+    return rr
